@@ -143,6 +143,24 @@ def two_function_file(b, order, form, where):
     return b.source_unit([pr] + (parts if order == 'writer_first' else parts[::-1]))
 
 
+def split_contract_file(b, order, form, declared_in):
+    """the declaration, a setter and the constructor assignment of ONE state variable spread over two contracts of a file (base contract with the
+    setter, derived contract with the constructor), in both orders; form: write form of the setter or None (no setter at all)"""
+    decl = var_def(b, 'uint256', None, False, 'fee')
+    setter = None
+    if form is not None:
+        setter = b.function('Function', 'setFee', [b.param(b.ty('Uint', 256), None, 'v')], [b.fattr('visibility', 'external')],
+                            b.block([b.expr_stmt(write_expr(b, form, 'direct', 'fee', b.var('v')))]))
+    ctor = b.function('Constructor', None, [], [], b.block([b.expr_stmt(b.bin('Assign', b.var('fee'), b.num(30)))]))
+    other = var_def(b, 'address', None, False, 'owner')
+    octor_stmt = b.expr_stmt(b.bin('Assign', b.var('owner'), b.member(b.var('msg'), 'sender')))
+    base_parts = ([decl] if declared_in == 'writer' else []) + [other] + ([setter] if setter is not None else [])
+    derived_parts = ([decl] if declared_in == 'ctor' else []) + [b.function('Constructor', None, [], [], b.block([octor_stmt, b.expr_stmt(b.bin('Assign', b.var('fee'), b.num(30)))]))]
+    A = fam.contract_with(b, base_parts, name='Config')
+    B = fam.contract_with(b, derived_parts, name='Vault', bases=[('Config', None)] if order == 'writer_first' else ())
+    return b.source_unit([b.pragma('solidity', '0.8.16')] + ([A, B] if order == 'writer_first' else [B, A]))
+
+
 def ctor_sequence_file(b, order):
     """one constructor that assigns a string-typed, an abi-encoded and two value-typed state variables, in the given order"""
     vs = {'s': ('string', b.string('registry')), 'e': ('bytes', b.call(b.member(b.var('abi'), 'encode'), [b.num(1)])), 'u': ('uint256', b.num(30)),
@@ -157,6 +175,8 @@ def all_cases(chk):
     out = []
     for order in ('suac', 'usac', 'uase', 'eu', 'ues', 'aceus', 'su', 'cs'):
         out.append(('constructor assigns %s in this order' % order, lambda b, o=order: ctor_sequence_file(b, o)))
+    for order, form, decl in itertools.product(('writer_first', 'ctor_first'), (None, 'Assign', 'AssignAdd', 'PostIncrement'), ('writer', 'ctor')):
+        out.append(('split over two contracts: %s, setter %s, declared in the %s contract' % (order, form, decl), lambda b, a=(order, form, decl): split_contract_file(b, *a)))
     for order, form, where in itertools.product(('writer_first', 'reader_first'), ('direct', 'index'), ('same_contract', 'two_contracts', 'free_writer')):
         out.append(('two functions %s %s %s' % (order, form, where), lambda b, a=(order, form, where): two_function_file(b, *a)))
     pos_all = list(fam.STMT_POSITIONS)
@@ -226,7 +246,7 @@ def body(chk):
     n = len(all_cases(chk))
     idx = list(range(n))
     if chk.quick and n > 900:
-        core = [i for i, (l, _) in enumerate(all_cases(chk)) if l.startswith(('two params', 'two functions', 'constructor assigns')) or 'in the header of' in l or ('no write, ctor=' in l and l.startswith(('x:ui', 'x:ad', 'x:by', 'x:in')))]
+        core = [i for i, (l, _) in enumerate(all_cases(chk)) if l.startswith(('two params', 'two functions', 'constructor assigns', 'split over two contracts')) or 'in the header of' in l or ('no write, ctor=' in l and l.startswith(('x:ui', 'x:ad', 'x:by', 'x:in')))]
         chk.rng.shuffle(idx)
         idx = sorted(set(idx[:900]) | set(core))
     chk.bounds = {'files': '%d of %d x 4 detectors' % (len(idx), n),
